@@ -43,7 +43,7 @@ func c04Concurrent(rt *rapid.T, ev *evid.Rec) {
 	}
 	for _, s := range w.Sources {
 		// the background head poller is part of the pipeline
-		s.client = jrpc2.New(s.URL).WithPollDuration(time.Millisecond).WithMaxReads(max(1, len(m.decls)))
+		s.client = jrpc2.New(s.urls()...).WithPollDuration(time.Millisecond).WithMaxReads(max(1, len(m.decls)))
 	}
 	if err := w.rebuildTasksWithClients(); err != nil {
 		rt.Fatalf("VERIF-INCONCLUSIVE rebuild: %v", err)
